@@ -160,9 +160,10 @@ def arena_pipeline(tier, focus="general", variants="trait"):
         P["cached"] = False
         with open(cpath, "wb") as f:
             pickle.dump(P, f)
-        # drop old cache entries (keep the 6 newest)
+        # drop old cache entries: keep the 24 newest and everything younger than 3 hours (one run of all arena checks uses 8
+        # pipelines whose results must stay readable until the last check of the run has reported)
         ents = sorted([os.path.join(cdir, x) for x in os.listdir(cdir) if x.endswith(".pkl")], key=os.path.getmtime)
-        for old in ents[:-6]:
+        for old in [e for e in ents[:-24] if time.time() - os.path.getmtime(e) > 3 * 3600]:
             try:
                 with open(old, "rb") as f:
                     o = pickle.load(f)
